@@ -178,6 +178,7 @@ def needsBeve : String → Option Bool
   | "vec" => some false
   | "file" => some false       -- pull_to_file(_async): the committed file's content (commit protocol: C10)
   | "call" => some false       -- pull_consume(_async) with a read-to-end consumer
+  | "c1" => some false         -- … whose consumer reads 1 byte at a time, then 2..7, then the rest
   | "cerr" => some false       -- … whose consumer reads everything and returns Err
   | "cpart" => some false      -- … whose consumer reads 16 bytes and returns them
   | "cpanic" => some false     -- … whose consumer panics after 16 bytes
@@ -215,7 +216,7 @@ def hl (idx client puller kind comp chunk stream evs end_ : String) : String :=
           else if puller = "cpart" then
             let part := logical.take 16
             joinSp ([idx, "ok", toString part.length] ++ (if known then [toString (fnv part).toNat] else []))
-          else if puller = "vec" || puller = "consume" || puller = "file" || puller = "call" then
+          else if puller = "vec" || puller = "consume" || puller = "file" || puller = "call" || puller = "c1" then
             joinSp ([idx, "ok", toString logical.length] ++ (if known then [toString (fnv logical).toNat] else []))
           else idx ++ " ok"
   | _, _, _, _ => idx ++ " bad-op"
